@@ -130,9 +130,33 @@ def build_syn(s):
     return f
 
 
+def shift_construct(c):
+    d0 = c.data
+    if d0.dtype.kind in "iuf":
+        c.set_data(cfdm.Data(np.ma.asanyarray(d0.array) + 1.0, units=d0.get_units(None),
+                             calendar=d0.get_calendar(None)), copy=False)
+        if c.has_bounds():
+            b0 = c.bounds.data
+            c.bounds.set_data(cfdm.Data(np.ma.asanyarray(b0.array) + 1.0, units=b0.get_units(None),
+                                        calendar=b0.get_calendar(None)), copy=False)
+    else:
+        c.set_data(cfdm.Data(np.array([str(x) + "X" for x in d0.array.tolist()])), copy=False)
+
+
 def apply_mod(f, m):
     op = m[0]
-    if op == "ncvar":
+    if op == "external_cm":
+        # the field's (first) cell measure becomes an external variable
+        cm = list(f.cell_measures(todict=True).values())[0]
+        cm.nc_set_external(True)
+        cm.nc_set_variable(m[1])
+    elif op == "add_cm":
+        # an internal cell measure over the data axes, with the given netCDF name
+        a = cfdm.CellMeasure(measure=m[2] if len(m) > 2 else "area", properties={"units": "m2"},
+                             data=cfdm.Data(np.arange(f.data.size, dtype="f8").reshape(f.data.shape) + 1.0))
+        a.nc_set_variable(m[1])
+        f.set_construct(a, axes=f.get_data_axes())
+    elif op == "ncvar":
         f.nc_set_variable(m[1])
     elif op == "prop":
         f.set_property(m[1], m[2])
@@ -182,6 +206,19 @@ def build(spec, scratch, target=None):
         f = cfdm.example_field(spec["ex"])
         for m in spec.get("mods", []):
             apply_mod(f, m)
+    if spec.get("dsg"):
+        # a ragged array whose count / index variable is that of the example
+        # field; instance-level and / or element-level coordinates moved
+        for key, c in f.auxiliary_coordinates(todict=True).items():
+            n = len(f.get_data_axes(key))
+            if ("instance" in spec["dsg"]["shift"] and n == 1) or ("element" in spec["dsg"]["shift"] and n == 2):
+                shift_construct(c)
+        f = f.compress(spec["dsg"]["method"])
+    if spec.get("domain"):
+        nv = f.nc_get_variable(None)
+        f = f.domain
+        if spec["domain"] != "default":
+            f.nc_set_variable(spec["domain"])
     if spec.get("via_file"):
         _via[0] += 1
         p = os.path.join(scratch, f"via_{os.getpid()}_{_via[0]}.nc")
@@ -387,13 +424,20 @@ def skel(f, toks):
 # ---------------------------------------------------------------------------
 # the property oracle (with cfdm's own equals, on fields brought into memory)
 # ---------------------------------------------------------------------------
+def read_all(path):
+    """Everything that can be read from the dataset: the fields, and the
+    domains defined by domain variables."""
+    return [in_memory(h) for h in cfdm.read(path)] + [in_memory(h) for h in cfdm.read(path, domain=True)]
+
+
 def in_memory(f):
     f = f.copy()
     try:
         f.to_memory(inplace=True)
     except Exception:
         pass
-    f.data.array  # noqa
+    if isinstance(f, cfdm.Field):
+        f.data.array  # noqa
     for c in f.constructs.filter_by_data(todict=True).values():
         try:
             c.to_memory(inplace=True)
@@ -485,6 +529,8 @@ def classify_exc(e):
         return "refused:groups"
     if isinstance(e, ValueError) and "incompatible 'featureType'" in msg:
         return "refused:featureType"
+    if isinstance(e, ValueError) and "mode parameter must be one of" in msg:
+        return "badmode:ValueError"
     return "raised:" + type(e).__name__
 
 
@@ -497,7 +543,10 @@ def run_case(case, scratch):
     out = {"id": case["id"], "steps": [], "setup": "ok"}
     try:
         s0 = [build(sp, scratch) for sp in case["s0"]]
-        cfdm.write(s0, path, fmt=fmt, **write_kw(case.get("w_kw")))
+        kw0 = write_kw(case.get("w_kw"))
+        if case.get("external"):
+            kw0["external"] = os.path.join(scratch, f"c17_{case['id']}_{os.getpid()}_external.nc")
+        cfdm.write(s0, path, fmt=fmt, **kw0)
         out["created"] = ads(path)
         if case.get("foreign"):
             # global attributes put there by another tool
@@ -526,7 +575,7 @@ def run_case(case, scratch):
         before = ads(path)
         sha0 = sha(path)
         try:
-            old = [in_memory(h) for h in cfdm.read(path)]
+            old = read_all(path)
             step["r"] = [skel(h, toks) for h in old]
         except Exception as e:  # noqa
             step["outcome"] = "read-before-failed:" + type(e).__name__ + ":" + str(e)[:200]
@@ -537,6 +586,9 @@ def run_case(case, scratch):
         new_ref = [g.copy() for g in new]
         a_kw = a_kws[k] if k < len(a_kws) else None
         step["opts"] = norm_opts(a_kw)
+        a_modes = case.get("a_mode") or []
+        spelling = a_modes[k] if k < len(a_modes) else "a"
+        step["mode"] = spelling
         step["before"] = before
         step["n_old"] = len(old)
         step["n_new"] = len(new)
@@ -554,7 +606,7 @@ def run_case(case, scratch):
         sys.stdout.write(json.dumps({"id": case["id"], "starting": k}) + "\n")
         sys.stdout.flush()
         try:
-            cfdm.write(new if len(new) != 1 or case.get("as_list") else new[0], path, fmt=fmt_append, mode="a",
+            cfdm.write(new if len(new) != 1 or case.get("as_list") else new[0], path, fmt=fmt_append, mode=spelling,
                        **write_kw(a_kw))
             step["outcome"] = "ok"
         except Exception as e:  # noqa
@@ -580,10 +632,11 @@ def run_case(case, scratch):
         orc["vars_changed"] = sorted(v["name"] for v in before["vars"] if avars.get(v["name"]) != v)
         # field-level preservation and the new fields
         try:
-            got = [in_memory(h) for h in cfdm.read(path)]
+            got = read_all(path)
             orc["n_after"] = len(got)
             missing, used = match_all(old, got)
             orc["old_missing"] = [repr(old[i]) for i in missing]
+            orc["old_missing_ncvars"] = [old[i].nc_get_variable(None) for i in missing]
             if step["outcome"] == "ok":
                 rest = [h for j, h in enumerate(got) if j not in used]
                 gl_held = sorted(before["gatts"])
@@ -597,7 +650,7 @@ def run_case(case, scratch):
                         _via[0] += 1
                         p = os.path.join(scratch, f"rt_{os.getpid()}_{_via[0]}.nc")
                         cfdm.write(new_ref[i].copy(), p, fmt=fmt)
-                        rt = [in_memory(h) for h in cfdm.read(p)]
+                        rt = read_all(p)
                         os.remove(p)
                     except Exception:
                         continue
@@ -608,6 +661,23 @@ def run_case(case, scratch):
                         left.pop(list(u3)[0])
                         miss2.remove(i)
                         via.append(i)
+                # an appended domain: the variables of its own constructs are read, in
+                # field mode, as fields of their own by a plain write / read too (the
+                # reader's business): these are not extra fields of the append
+                for g0 in new_ref:
+                    if isinstance(g0, cfdm.Field) or not left:
+                        continue
+                    try:
+                        _via[0] += 1
+                        p = os.path.join(scratch, f"rt_{os.getpid()}_{_via[0]}.nc")
+                        cfdm.write(g0.copy(), p, fmt=fmt)
+                        own = [in_memory(h) for h in cfdm.read(p)]
+                        os.remove(p)
+                    except Exception:
+                        continue
+                    # (in such a field the names of other netCDF variables are mere properties)
+                    m4, u4 = match_all(own, left, ignore=list(gl_held) + list(REF_ATTRS) + ["dimensions"])
+                    left = [h for j, h in enumerate(left) if j not in u4]
                 orc["new_matched_via_roundtrip"] = via
                 orc["new_missing"] = [repr(new_ref[i]) for i in miss2]
                 orc["input_changed"] = [repr(g) for g, c in zip(new, new_ref) if not g.equals(c, verbose=0)]
